@@ -56,7 +56,19 @@ DERIVE = [("-s", lambda s: -s, lambda x: -x),
           ("s.real", lambda s: s.real, lambda x: x),
           ("s.conjugate()", lambda s: s.conjugate(), lambda x: x),
           ("s//1", lambda s: s // 1, lambda x: x // 1)]
-RAW_ITERABLES = ["list", "tuple", "str", "range", "gen", "dict", "bytes"]
+RAW_ITERABLES = ["list", "tuple", "str", "range", "gen", "dict", "bytes",
+                 "onepass", "deque", "iterator"]
+
+
+class _OnePass(object):
+  """ Iterable (not an iterator) whose every iter() reads the same one-pass
+  source, as a wrapper around a file or socket does. """
+
+  def __init__(self, items):
+    self._it = iter(items)
+
+  def __iter__(self):
+    return (v for v in self._it)
 
 
 def make_raw(kind, n):
@@ -74,6 +86,13 @@ def make_raw(kind, n):
     return range(300, 300 + n), items
   if kind == "dict":
     return dict((v, None) for v in items), items
+  if kind == "onepass":
+    return _OnePass(items), items
+  if kind == "deque":
+    import collections
+    return collections.deque(items), items
+  if kind == "iterator":
+    return iter(list(items)), items
   return (v for v in items), items
 
 
